@@ -116,6 +116,19 @@ func genMS(t *rapid.T) MSScript {
 	return s
 }
 
+// overshootClass refines the size-bound signature: the listed finding (bytes
+// sizer, metrics) overshoots by a few bytes of unbudgeted length prefixes and
+// one metric without data points; anything larger is a different defect.
+func overshootClass(sizer string, over int) string {
+	switch {
+	case sizer == "bytes" && over > 64:
+		return "/over>64"
+	case sizer == "bytes" && over > 16:
+		return "/over>16"
+	}
+	return ""
+}
+
 func sizeOf(s *MSScript, r exporterhelper.Request) int {
 	if s.Sizer == "items" {
 		return r.ItemsCount()
@@ -160,7 +173,7 @@ func runMSInner(cMS *vt.C, s *MSScript) (nontrivial bool, f *vt.Finding) {
 		}
 		if s.Max > 0 {
 			if sz := sizeOf(s, r); sz > s.Max && sig.UnitCount(v) > 1 {
-				name := "size-bound/" + s.Sizer + "/" + s.Signal
+				name := "size-bound/" + s.Sizer + "/" + s.Signal + overshootClass(s.Sizer, sz-s.Max)
 				if s.Sizer == "bytes" {
 					over := sz - s.Max
 					b := "over>64"
